@@ -1,4 +1,5 @@
 import RreModel.C18.Lemmas
+import RreModel.C18.Extra
 /-
 C18 — property theorems (only).  "Module imports stay acyclic and visibility matches the
 declarations."  Every statement about `run ops` quantifies over *every* finite history `ops` of
@@ -166,6 +167,43 @@ theorem model_meets_spec (U R T : List String) (ops : List Op) :
   trace_ok U R T ops init inv_init
 
 /-! ## non-vacuity -/
+
+/-! ## the remaining queries that read the module set and the import relation (reach audit) -/
+
+/-- `validate_module` answers exactly for the existing modules (any state). -/
+theorem validate_total (s : Mgr) (name : String) : (validate s name).isSome = true ↔ s.has name := by
+  unfold validate Mgr.has
+  cases aget name s.modules <;> simp
+
+/-- After every history, `validate_module` never finds an import of a non-existent module: every existing module
+is valid with no errors (deletion drops the declarations that name the deleted module). -/
+theorem validate_finds_no_missing_module (ops : List Op) (name : String) (v : Validation)
+    (h : validate (run ops) name = some v) : v.valid = true ∧ v.errors = 0 := by
+  unfold validate at h
+  cases hm : aget name (run ops).modules with
+  | none => simp [hm] at h
+  | some m =>
+    simp only [hm, Option.some.injEq] at h
+    have h0 : m.imports.countP (fun d => (aget d.src (run ops).modules).isNone) = 0 := by
+      rw [List.countP_eq_zero]
+      intro d hd
+      have := decls_name_existing_modules ops name m d hm hd
+      unfold Mgr.has at this
+      cases hs : aget d.src (run ops).modules with
+      | none => exact absurd hs this
+      | some _ => simp
+    subst h
+    simp [h0]
+
+/-- `get_transitive_dependencies` never reports the module itself (any state) — with `acyclic_invariant`: it would
+not even if the start were not pre-marked as visited. -/
+theorem dependencies_exclude_self (s : Mgr) (name : String) : name ∉ transDeps s name := by
+  simp [transDeps]
+
+example : transDeps ⟨[], [("C", ["B"]), ("B", ["A"])]⟩ "C" = ["B", "A"] := by
+  simp [transDeps, growN, grow, succs, aget, sins, targets]
+example : validate (run []) "MAIN" = some { valid := true, errors := 0, unused := 0, reexp := 0, empty := true } := by
+  simp [validate, run, init, aget, newModule]
 
 /-- A, B, C with a chain C → B → A, rules and exports, B re-exporting `r*` -/
 def exChain : List Op :=
